@@ -296,6 +296,19 @@ class Facts:
         self.items_by_path = {it['path']: it for it in self.items}
         self.adt_by_path = {a['path']: a for a in self.adts}
         self._callers = None
+        self._hosts = None
+
+    def derived(self, bodies):
+        """A view of the same crate with a different (normalised) set of run-time bodies."""
+        import copy
+        N = copy.copy(self)
+        N.bodies = list(bodies)
+        N.by_path = {b.path: b for b in N.bodies}
+        N.by_hash = {b.hash: b for b in N.bodies}
+        N._callers = None
+        N._hosts = None
+        N.normal_form_of = self
+        return N
 
     # ---------------------------------------------------------------- role lookups
     def method(self, self_suffix, name, trait=None):
@@ -340,10 +353,40 @@ class Facts:
     def closures_of(self, body):
         """Closure bodies defined (transitively) inside `body`."""
         pre = body.path + '::{closure#'
-        return [b for b in self.bodies if b.path.startswith(pre)]
+        out = [b for b in self.bodies if b.path.startswith(pre)]
+        # closures that arrived with an inlined helper (normal forms): referenced by aggregate, defined elsewhere
+        work = [body] + out
+        seen = {b.path for b in work}
+        while work:
+            x = work.pop()
+            for bl in x.blocks:
+                for st in bl['stmts']:
+                    if st['k'] == 'assign' and st['rv'].get('k') == 'agg' and st['rv'].get('ak') == 'closure':
+                        cb = self.by_path.get(st['rv'].get('closure'))
+                        if cb is not None and cb.path not in seen:
+                            seen.add(cb.path)
+                            out.append(cb)
+                            work.append(cb)
+        return out
 
     def closure(self, path):
         return self.by_path.get(path)
+
+    def closure_host(self, cb):
+        """The body that creates closure `cb`: its lexical parent, or (in a normal form where the parent was inlined away)
+        the body now holding the closure aggregate."""
+        if cb.closure_parent:
+            pb = self.by_path.get(cb.closure_parent)
+            if pb is not None:
+                return pb
+        if getattr(self, '_hosts', None) is None:
+            self._hosts = {}
+            for b in self.bodies:
+                for bl in b.blocks:
+                    for st in bl['stmts']:
+                        if st['k'] == 'assign' and st['rv'].get('k') == 'agg' and st['rv'].get('ak') == 'closure':
+                            self._hosts.setdefault(st['rv'].get('closure'), b)
+        return self._hosts.get(cb.path)
 
     def callers(self):
         """map callee best-hash -> list of (Body, block)"""
